@@ -87,6 +87,7 @@ def global_state_rule(ctx, rep, cl, functions):
                 n += 1
                 rep.fail(cl + ".global-state", name, "process-global object %s is mutated at run time by %s in %s: state of one anonymizer leaks into every later one in the process" % (name, what, f.qualname), W(f, e.node),
                          key="%s.global-state|%s" % (cl, name))
+    n += process_lifetime_objects_rule(ctx, rep, cl, functions)
     rep.ob(cl + ".global-state-scan", "entry closure", True, "mutation sites of module-/class-level objects found: %d (functions scanned: %d)" % (n, len(functions)), "", nontrivial=False)
     return n
 
@@ -109,6 +110,10 @@ def _alias_roots(t, fields, depth=0):
         return out
     if k == "attr" and t[1][0] == "param" and t[2] in fields:
         return fields[t[2]]
+    if k in ("carried", "loopout") and "__loops__" in fields:
+        li = fields["__loops__"].get(t[2])
+        if li is not None and t[1] in li.carried:
+            return _alias_roots(li.carried[t[1]][0], fields, depth + 1)
     return set()
 
 
@@ -127,7 +132,7 @@ def argument_mutation_rule(ctx, rep, cl, functions):
         for path in ctx.A.paths(f).paths:
             if not path.feasible():
                 continue
-            fields = {}
+            fields = {"__loops__": ctx.A.paths(f).loops}
             for e, ls in walk_effects(path.effects):
                 recv = what = None
                 if e.kind == "store_attr" and e.a == ("param", self_name):
@@ -166,6 +171,109 @@ def argument_mutation_rule(ctx, rep, cl, functions):
         if not bad:
             rep.ob(cl + ".arguments-left-alone", f.qualname.split(".", 1)[-1], True, "no in-place mutation of an argument object", W(f), nontrivial=False)
     rep.stat("argument_mutation_sites_examined", n_sites)
+
+
+_MEMO_DECORATORS = {"lru_cache", "cache", "memoize", "memoized", "memoise", "memoised", "cached"}
+_PURE_EXT_PREFIXES = ("hashlib.", "re.", "ipaddress.", "string.", "math.", "itertools.", "functools.", "operator.", "binascii.", "base64.", "struct.", "collections.", "bidict.")
+
+
+def process_lifetime_objects_rule(ctx, rep, cl, functions):
+    """Objects that live as long as the process although they look local: (a) a mutable default argument (evaluated once, at definition)
+    that the function mutates, stores or returns; (b) a memoising decorator on a function whose result or effect is not determined by its
+    (hashable) arguments alone - a method, or a function that touches the file system / clock / randomness / module state."""
+    p, G = ctx.p, ctx.G
+    n = 0
+    names = {f.qualname for f in functions} | set(ctx.helpers)
+    scanned = 0
+    for f in p.all_functions():
+        if f.qualname not in names:
+            continue
+        scanned += 1
+        # (a) mutable defaults
+        for pn, d in f.defaults.items():
+            if not is_mutable_display(d):
+                continue
+            uses = []
+            self_name = f.params[0] if (f.cls is not None and f.params and not f.is_staticmethod) else None
+            for path in ctx.A.paths(f).paths:
+                if not path.feasible():
+                    continue
+                fields = {"__loops__": ctx.A.paths(f).loops}
+                for e, ls in walk_effects(path.effects):
+                    if e.kind == "store_attr":
+                        if pn in _alias_roots(e.c, fields):
+                            uses.append("stored in .%s" % e.b)
+                        if e.a == ("param", self_name):
+                            fields[e.b] = _alias_roots(e.c, fields)
+                    elif e.kind == "call" and e.a[1][0] == "attr" and e.a[1][2] in MUTATORS | {"__setitem__", "__ior__", "__iand__", "__iadd__"} and pn in _alias_roots(e.a[1][1], fields):
+                        uses.append("mutated by .%s()" % e.a[1][2])
+                    elif e.kind == "store_sub" and pn in _alias_roots(e.a, fields):
+                        uses.append("mutated by [...] =")
+                v = path.env.get(pn)
+                if isinstance(v, tuple) and v and v[0] == "mut" and pn in _alias_roots(v, fields):
+                    uses.append("mutated by .%s()" % v[2])
+                if path.result is not None and path.result[0] == "return" and isinstance(path.result[1], tuple) and pn in _alias_roots(path.result[1], fields):
+                    uses.append("returned")
+            if uses:
+                n += 1
+                rep.fail(cl + ".global-state", "%s(%s=<mutable default>)" % (f.name, pn),
+                         "the default value of parameter %s of %s is ONE object for the whole process (evaluated at definition) and it is %s: what one call leaves in it is seen by every later call that omits the argument" % (pn, f.qualname, ", ".join(sorted(set(uses)))),
+                         W(f, d), key="%s.global-state|%s.%s-default" % (cl, f.name, pn))
+        # (b) memoising decorators
+        memo = [d for d in f.decorators if d in _MEMO_DECORATORS]
+        deco_calls = [d.func for d in f.node.decorator_list if isinstance(d, ast.Call)]
+        memo += [x.attr if isinstance(x, ast.Attribute) else getattr(x, "id", "") for x in deco_calls if (x.attr if isinstance(x, ast.Attribute) else getattr(x, "id", "")) in _MEMO_DECORATORS]
+        if memo:
+            why = []
+            if f.cls is not None and not f.is_staticmethod:
+                why.append("it is a method: the memo outlives and is shared across instances (keyed by self's __eq__/__hash__), and ignores the instance's state")
+            for path in ctx.A.paths(f).paths:
+                for e, ls in walk_effects(path.effects):
+                    if e.kind in ("store_attr", "store_sub", "store_global"):
+                        why.append("it has a side effect (%s) that is skipped on a memo hit" % e.kind)
+                    if e.kind != "call":
+                        continue
+                    fn = e.a[1]
+                    q = None
+                    if fn[0] == "builtin":
+                        if fn[1] in ("open", "print", "input", "id", "hash"):
+                            why.append("it calls %s()" % fn[1])
+                        continue
+                    base = fn
+                    while base[0] == "attr":
+                        base = base[1]
+                    if base[0] == "global" and base[1] in p.modules:
+                        r = p.resolve_module_name(p.modules[base[1]], base[2])
+                        if r and r[0] == "ext":
+                            dotted = r[1] + show(fn)[len(base[2]):]
+                            if not dotted.startswith(_PURE_EXT_PREFIXES):
+                                why.append("it calls %s, whose effect/result is not a function of the arguments" % dotted)
+                        elif r and r[0] == "const":
+                            why.append("it uses the module-level object %s" % base[2])
+            if why:
+                n += 1
+                rep.fail(cl + ".global-state", "%s@%s" % (f.name, memo[0]),
+                         "%s is memoised for the life of the process (@%s) but %s" % (f.qualname, memo[0], "; ".join(sorted(set(why))[:3])), W(f), key="%s.global-state|%s@memo" % (cl, f.name))
+    rep.stat("functions_scanned_for_process_lifetime_objects", scanned)
+    return n
+
+
+def stage_state_rule(ctx, rep, cl, root_names):
+    """global_state_rule (incl. process-lifetime objects) over the call-graph closure of one stage's functions."""
+    p, G = ctx.p, ctx.G
+    roots = []
+    for n in root_names:
+        hits = [c for q, c in p.classes.items() if q == n or q.endswith("." + n)]
+        cls = hits[0] if len(hits) == 1 else None
+        if cls is not None:
+            roots += [m.qualname for m in cls.methods.values()]
+            continue
+        f = p.maybe_function(n)
+        if f is not None:
+            roots.append(f.qualname)
+    fns = [p.functions[q] for q in sorted(G.reachable(roots)) if q not in ctx.helpers]
+    rep.stat("stage_closure_functions", len(fns))
+    return global_state_rule(ctx, rep, cl, fns)
 
 
 def _set_typed(ctx, t, f):
@@ -563,7 +671,7 @@ def c14(ctx, rep):
     sub = Report("C18", quiet=True)
     c18(ctx, sub, with_k3=False)
     for o in sub.obligations:
-        if o["clause"] in ("C18.valid-alphabet", "C18.validated-before-tables", "C18.refusal", "C18.raises-valueerror-only", "C18.extra-total", "C18.alpha-num-inverse", "C18.gap-decode-guard"):
+        if o["clause"] in ("C18.valid-alphabet", "C18.validated-before-tables", "C18.refusal", "C18.raises-valueerror-only", "C18.extra-total", "C18.alpha-num-inverse", "C18.gap-decode-guard", "C18.decode-prelude", "C18.decode-chain"):
             rep.ob("C14.K3." + o["clause"].split(".", 1)[1], o["construct"], o["ok"], o["detail"], o["where"], o.get("witness"), key="C14.K3.%s|%s" % (o["clause"].split(".", 1)[1], o["construct"]))
     # ---- 9 containment
     from .checks_pipe import _per_file_body
@@ -874,6 +982,7 @@ def c18(ctx, rep, with_k3=True):
     rep.rule = "table arithmetic on folded constants (exhaustive over rows/characters) + structural term comparison of the two 20-line functions"
     rep.trust("chr/ord are inverse on 0..255", "re.search with ^...$ anchors (no MULTILINE) matches the whole string up to an optional trailing newline")
     rep.assume("plaintext code points <= 255 (the statement's domain)")
+    stage_state_rule(ctx, rep, "C18", ["juniper_decrypt", "juniper_nonrandom_encrypt"])
     m = p.modules.get(JS)
     if m is None:
         raise AnalysisError("module %s not found" % JS)
